@@ -7,7 +7,7 @@ from .c01 import r7_mirror
 
 PID = "C04"
 META = {
-    "explanation": "Static analysis of RangeIter / RevRangeIter on the MIR of the current tree: the bound-membership functions are decoded into a 3-arm table per side (Unbounded -> true, Included -> reflexive relation, Excluded -> irreflexive relation, operands `key REL bound`), the first-call positioning into a 3-arm table per direction (first/last, seek, seek + one conditional step on equality), every yielded entry is control-dependent on the far-side membership test of exactly the key being yielded, the first-call flag is consumed once, bounds are copied variant-preserving, and the two directions are mirror images. The table is exhaustive over Bound variants; correctness of the underlying seeks is C02. The iterators run on this cursor over files this Writer emits: the shared file-wellformedness and cursor-traversal rules (rules/shared.py), including the in-block backward step, are re-run as necessary conditions.",
+    "explanation": "Static analysis of RangeIter / RevRangeIter on the MIR of the current tree: the bound-membership functions are decoded into a 3-arm table per side (Unbounded -> true, Included -> reflexive relation, Excluded -> irreflexive relation, operands `key REL bound`), the first-call positioning into a 3-arm table per direction (first/last, seek, seek + one conditional step on equality), every yielded entry is control-dependent on the far-side membership test of exactly the key being yielded and a yielding call stores no branch-steering state other than the constructor value, the first-call flag is consumed once, bounds are copied variant-preserving, and the two directions are mirror images. The table is exhaustive over Bound variants; correctness of the underlying seeks is C02. The iterators run on this cursor over files this Writer emits: the shared file-wellformedness and cursor-traversal rules (rules/shared.py), including the in-block backward step, are re-run as necessary conditions.",
     "assumptions": ["core::cmp lexicographic ordering on [u8]", "the seeks of C02"],
 }
 
@@ -225,6 +225,9 @@ def r3_guard(ck, F, d):
     ck.ob(R, f"tests-far-bound/{d}", _is_bound_of_self(ft["src"], D["far"]), f"membership is tested against self.range.{D['far']}() ({ft['src'].show()[:70]})", b, site)
     ck.ob(R, f"tests-entry-key/{d}", all(tuple_part(k) == {0} for k in keys) and len(tested) >= 3 and cursor_sources(keys[1]) == tested, f"the tested key is the key part of the candidate entry, whichever cursor move produced it ({len(tested)} producing sites)", b, site)
     sw, t_t, f_t = ft["verdict"]
+    # a yielding call leaves nothing behind but the cursor position (same obligation as C05-R1, see c05.py)
+    from .c05 import _yield_leaves_no_state
+    _yield_leaves_no_state(ck, R, F, b, d, t_t, f_t, adt="reader::range_iter::RangeIter" if d == "fwd" else "reader::range_iter::RevRangeIter", skip=("cursor", "range"))
     somes = []
     for alt in return_alts(b):
         if is_err_path(alt):
